@@ -4,6 +4,26 @@ go 1.23
 
 require gopkg.in/src-d/hercules.v10 v10.0.0
 
+require (
+	github.com/emirpasic/gods v1.9.0 // indirect
+	github.com/gogo/protobuf v1.3.0 // indirect
+	github.com/jbenet/go-context v0.0.0-20150711004518-d14ea06fba99 // indirect
+	github.com/kevinburke/ssh_config v0.0.0-20180830205328-81db2a75821e // indirect
+	github.com/mitchellh/go-homedir v1.0.0 // indirect
+	github.com/pelletier/go-buffruneio v0.2.0 // indirect
+	github.com/pkg/errors v0.8.0 // indirect
+	github.com/sergi/go-diff v1.0.0 // indirect
+	github.com/spf13/cobra v0.0.3 // indirect
+	github.com/spf13/pflag v1.0.3 // indirect
+	github.com/src-d/gcfg v1.4.0 // indirect
+	github.com/xanzy/ssh-agent v0.2.0 // indirect
+	golang.org/x/crypto v0.0.0-20180904163835-0709b304e793 // indirect
+	golang.org/x/net v0.0.0-20180906233101-161cd47e91fd // indirect
+	gopkg.in/src-d/go-billy.v4 v4.2.1 // indirect
+	gopkg.in/src-d/go-git.v4 v4.10.0 // indirect
+	gopkg.in/warnings.v0 v0.1.2 // indirect
+)
+
 replace gopkg.in/src-d/hercules.v10 => /repo
 
 replace github.com/smacker/go-tree-sitter => github.com/dennwc/go-tree-sitter v0.0.0-20191127160809-cea124db9399
